@@ -20,7 +20,7 @@ def run(rep, kf, tier, seed):
     import contracts.collection_ind as cci
     engine_b.discharge(rep, kf, [crm.propagate_contract(), cbr.resolve_contract(), cci.from_data_inductive_contract()]
                        + cfp.all_contracts(), "C08", tier, seed)
-    run_bounded(rep, kf, "C08", ["removal_closure", "schema_order", "body_media"], tier)
+    run_bounded(rep, kf, "C08", ["removal_closure", "schema_order", "body_media", "param_override"], tier)
     rep.trusted.extend(["pyvc Engine B; LazyMap model of tables of unknown content"]
                        + ["assumed library contract: " + t for t in libmodels.TRUSTED])
     rep.assumptions.extend([
